@@ -88,7 +88,7 @@ def check(run):
             members = []
             for _ in range(rng.randrange(1, 7)):
                 k = rng.random()
-                if k < 0.7 or not members:
+                if k < 0.7 or (not members and t % 4):      # (every fourth tuple may start with an unreadable member)
                     f = rng.choice(pool)
                     members.append(("ok", f["data"], f["dump"]))
                 elif k < 0.78:
@@ -105,7 +105,7 @@ def check(run):
                     else:
                         members.append(("ok", f["data"], f["dump"]))
                 else:
-                    members.append(("dup", None, None))
+                    members.append(("dup", None, None) if members else ("garbage", b"", None))
             cases.append(members)
         lines = []
         metas = []
@@ -114,7 +114,9 @@ def check(run):
             names, files = [], {}
             for mi, (kind, data, dump) in enumerate(members):
                 if kind == "dup":
-                    names.append(rng.choice(names)); continue
+                    if names:
+                        names.append(rng.choice(names))
+                    continue
                 n = os.path.join(d, "in%d" % mi)
                 open(n, "wb").write(data)
                 names.append(n); files[n] = (kind, data, dump)
